@@ -468,7 +468,23 @@ func checkC12(c ServerHSCase, o *Obs) error {
 		if len(v.faults) == 1 && v.faults[0] == "origin" && w.status != 403 {
 			return fmt.Errorf("origin not allowed: HTTP status %d, want 403", w.status)
 		}
-		if len(v.faults) == 1 && v.faults[0] == "upgrade" {
+		// "426 with an Upgrade header when the Upgrade token is missing": the
+		// clause is not conditioned on the rest of the request, so it is also
+		// held against requests with further faults - except a Connection
+		// header without the upgrade token, which makes the request something
+		// other than an upgrade request (the statement's order of requirements).
+		hasFault := func(f string) bool {
+			for _, x := range v.faults {
+				if x == f {
+					return true
+				}
+			}
+			return false
+		}
+		if hasFault("upgrade") && !hasFault("connection") {
+			if len(v.faults) > 1 {
+				o.Class("upgrade_token_missing_plus_other_faults")
+			}
 			ut, _ := wsref.TokenList(w.Header()["Upgrade"])
 			if w.status != 426 || !wsref.HasToken(ut, "websocket") {
 				return fmt.Errorf("Upgrade token missing: HTTP status %d with Upgrade header %q, want 426 with Upgrade: websocket", w.status, w.Header()["Upgrade"])
